@@ -1,0 +1,8 @@
+//go:build !verif
+
+package rpc
+
+import "net/http"
+
+// verifExposeHandler is a no-op unless built with -tags verif.
+func verifExposeHandler(j *JSONRPCServer, h http.Handler) {}
